@@ -7,9 +7,12 @@ CONSTANTS
   MaxConv = 2
   LifoRestore = TRUE
   MaxBuilds = 1
+  Inherit <- MCInherit
+  SaveResolved = FALSE
 SPECIFICATION Spec
 VIEW view
 INVARIANT Quiescent
+INVARIANT ResolvesAsBefore
 INVARIANT NoLeakOutsideWorlds
 INVARIANT ActiveInBody
 INVARIANT RefCounts
